@@ -1,5 +1,5 @@
 """property id -> (spec, harness group)"""
-from . import props_alg, props_alias, props_lin
+from . import props_alg, props_alias, props_lin, props_est
 
 SPECS = {}
 for pid, spec in props_alg.SPECS.items():
@@ -8,4 +8,6 @@ for pid, spec in props_alias.SPECS.items():
     SPECS[pid] = (spec, props_alias.GROUP)
 for pid, spec in props_lin.SPECS.items():
     SPECS[pid] = (spec, props_lin.GROUP)
+for pid, spec in props_est.SPECS.items():
+    SPECS[pid] = (spec, props_est.GROUP)
 NOT_CLAIMED = {}
